@@ -409,4 +409,80 @@ theorem c01_pass_means_declared_phases_ran (cfg : Cfg) (hc : 0 < cfg.defaultRepe
       exact key _ hlast'
 
 
+/-- Accounted, with `run_if`: when a node outside any subtest returns CONTINUE, every phase it declares outside
+    branches and subtests has a record of its own, or has a `run_if` which was evaluated (and, the node having
+    returned CONTINUE, did not raise). -/
+theorem c01_declared_phases_accounted_runif (cfg : Cfg) (hc : 0 < cfg.defaultRepeatLimit) :
+    ∀ (n : Node) (td : Bool) (st : St), (exec cfg n none td st).2 = .cont →
+      ∀ p ∈ declaredU n, Acc (exec cfg n none td st).1 p
+  | .phase q, td, st, _, p, hp => by
+    simp only [declaredU, List.mem_singleton] at hp; subst hp
+    simp only [exec, execPhaseNode, Option.isSome_none, Bool.and_false, Bool.false_and, Bool.false_eq_true, if_false]
+    exact runPhase_record_or_runIf cfg hc p none st
+  | .checkpoint _, _, _, _, p, hp => by simp [declaredU] at hp
+  | .subtest _ _, _, _, _, p, hp => by simp [declaredU] at hp
+  | .branch _ _ _, _, _, _, p, hp => by simp [declaredU] at hp
+  | .seq ns, td, st, h, p, hp => by
+    simp only [declaredU] at hp
+    simp only [exec] at h ⊢
+    cases td
+    · simp only [Bool.false_eq_true, if_false] at h ⊢; exact lAb ns st h p hp
+    · simp only [if_true] at h ⊢; exact lTd ns st h p hp
+  | .group s m t, td, st, h, p, hp => by
+    simp only [declaredU, List.mem_append] at hp
+    simp only [exec, Option.isSome_none, Bool.and_false, Bool.false_and, Bool.or_false, Bool.not_false, if_true] at h ⊢
+    cases td
+    · simp only [Bool.false_eq_true, if_false] at h ⊢
+      split at h
+      · rename_i hne; rw [h] at hne; simp at hne
+      · rename_i hcont
+        simp only [hcont] at ⊢
+        have hcont' : (execAb cfg s none st).2 = .cont := by simpa using hcont
+        obtain ⟨h2, h3⟩ := Ret.max_cont h
+        rcases hp with hp | hp | hp
+        · exact ((lAb s st hcont' p hp).mono (execAb_grows cfg m none _) (execAb_growsRI cfg m none _)).mono
+            (execTd_grows cfg t none _) (execTd_growsRI cfg t none _)
+        · exact (lAb m _ h2 p hp).mono (execTd_grows cfg t none _) (execTd_growsRI cfg t none _)
+        · exact lTd t _ h3 p hp
+    · simp only [if_true] at h ⊢
+      split at h
+      · rename_i hne; rw [h] at hne; simp at hne
+      · rename_i hcont
+        simp only [hcont] at ⊢
+        have hcont' : (execTd cfg s none st).2 = .cont := by simpa using hcont
+        obtain ⟨h2, h3⟩ := Ret.max_cont h
+        rcases hp with hp | hp | hp
+        · exact ((lTd s st hcont' p hp).mono (execTd_grows cfg m none _) (execTd_growsRI cfg m none _)).mono
+            (execTd_grows cfg t none _) (execTd_growsRI cfg t none _)
+        · exact (lTd m _ h2 p hp).mono (execTd_grows cfg t none _) (execTd_growsRI cfg t none _)
+        · exact lTd t _ h3 p hp
+where
+  lAb : ∀ (ns : List Node) (st : St), (execAb cfg ns none st).2 = .cont →
+      ∀ p ∈ declaredUL ns, Acc (execAb cfg ns none st).1 p
+    | [], _, _, p, hp => by simp [declaredUL] at hp
+    | n :: ns, st, h, p, hp => by
+      simp only [declaredUL, List.mem_append] at hp
+      simp only [execAb] at h ⊢
+      split at h
+      · rename_i hne; rw [h] at hne; simp at hne
+      · rename_i hcont
+        have hcont' : (exec cfg n none false st).2 = .cont := by simpa using hcont
+        simp only [hcont]
+        rcases hp with hp | hp
+        · exact (c01_declared_phases_accounted_runif cfg hc n false st hcont' p hp).mono
+            (execAb_grows cfg ns none _) (execAb_growsRI cfg ns none _)
+        · exact lAb ns _ h p hp
+  lTd : ∀ (ns : List Node) (st : St), (execTd cfg ns none st).2 = .cont →
+      ∀ p ∈ declaredUL ns, Acc (execTd cfg ns none st).1 p
+    | [], _, _, p, hp => by simp [declaredUL] at hp
+    | n :: ns, st, h, p, hp => by
+      simp only [declaredUL, List.mem_append] at hp
+      simp only [execTd] at h ⊢
+      obtain ⟨h1, h2⟩ := Ret.max_cont h
+      rcases hp with hp | hp
+      · exact (c01_declared_phases_accounted_runif cfg hc n true st h1 p hp).mono
+          (execTd_grows cfg ns none _) (execTd_growsRI cfg ns none _)
+      · exact lTd ns _ h2 p hp
+
+
 end OpenHTF.Exec
